@@ -136,6 +136,9 @@ def c11(chk):
             elif r["ev"] == "obs.rpc_result" and r["nonce"] in calls:
                 chk.case(calls[r["nonce"]] + (r.get("ok"), r.get("status"), str(r.get("err"))[:20]))
     sample_events(chk, summ, ("tmo.set", "obs.rpc_result"), n=4)
+    # defaults far beyond everything else that is configured (60 - 120 s, the connections' idle timeout is
+    # 30 s): the deadline that applies is still the one that was configured
+    rpc_runs(chk, "generous", mode="mix", faults=0, calls=40, seed=chk.seed + 3, runs=6 if quick(chk) else 120, jobs=6, files=3)
     # generated servers behind the inbound timeout layer: RequestTimeout at the deadline and the handler dropped
     from props import replay_check
     replay_check(chk, "codegen-deadline", vlib.harness("codegen-deadline"))
